@@ -1054,3 +1054,110 @@ Proof.
     + apply perms_iff. apply H.
     + apply de_construct_accepted; [exact Hwf|now apply ci_check_correct].
 Qed.
+
+(* ------------------------------------------------------------------------------------------------ *)
+(* the recognisers, relative to a consecutive-ones solver that is sound, complete and returns valid column
+   orders (which is what the correspondence establishes for solve_consecutive_ones on every run) *)
+Section RecognisersCorrect.
+Variable solve : matrix -> nat -> option (list nat).
+Hypothesis solve_ok : forall M nc,
+  match solve M nc with
+  | Some perm => c1p_check M nc perm = true
+  | None => c1p_decide M nc = false
+  end.
+
+Lemma solve_none M nc : solve M nc = None -> ~ C1P M nc.
+Proof.
+  intros E H. pose proof (solve_ok M nc) as Hs. rewrite E in Hs.
+  apply c1p_decide_correct in H. congruence.
+Qed.
+
+Theorem recog_ci alts ballots :
+  match is_candidate_interval solve alts ballots with
+  | Some order => ci_check alts ballots order = true
+  | None => ~ CI alts ballots
+  end.
+Proof.
+  unfold is_candidate_interval. pose proof (solve_ok (ci_matrix alts ballots) (length alts)) as Hs.
+  destruct (solve (ci_matrix alts ballots) (length alts)) as [perm|] eqn:E; simpl.
+  - now apply ci_witness.
+  - rewrite ci_reduction. now apply solve_none.
+Qed.
+
+Theorem recog_cei alts ballots :
+  match is_candidate_extremal_interval solve alts ballots with
+  | Some order => cei_check alts ballots order = true
+  | None => ~ CEI alts ballots
+  end.
+Proof.
+  unfold is_candidate_extremal_interval.
+  pose proof (solve_ok (cei_matrix alts ballots) (length alts)) as Hs.
+  destruct (solve (cei_matrix alts ballots) (length alts)) as [perm|] eqn:E; simpl.
+  - apply cei_witness in Hs. destruct Hs as [-> Hs]. exact Hs.
+  - rewrite cei_reduction_instance. now apply solve_none.
+Qed.
+
+Theorem recog_vi alts ballots :
+  match is_voter_interval solve alts ballots with
+  | Some border => vi_check alts ballots border = true
+  | None => ~ VI alts ballots
+  end.
+Proof.
+  unfold is_voter_interval. pose proof (solve_ok (vi_matrix alts ballots) (length ballots)) as Hs.
+  destruct (solve (vi_matrix alts ballots) (length ballots)) as [perm|] eqn:E.
+  - now rewrite vi_check_c1p.
+  - rewrite vi_reduction. now apply solve_none.
+Qed.
+
+Theorem recog_vei alts ballots :
+  match is_voter_extremal_interval solve alts ballots with
+  | Some border => vei_check alts ballots border = true
+  | None => ~ VEI alts ballots
+  end.
+Proof.
+  unfold is_voter_extremal_interval. pose proof (solve_ok (vei_matrix alts ballots) (length ballots)) as Hs.
+  destruct (solve (vei_matrix alts ballots) (length ballots)) as [perm|] eqn:E.
+  - now apply vei_check_c1p.
+  - rewrite vei_reduction. now apply solve_none.
+Qed.
+
+Theorem recog_wsc alts ballots :
+  match is_weakly_single_crossing solve alts ballots with
+  | Some border => wsc_check alts ballots border = true
+  | None => ~ WSC alts ballots
+  end.
+Proof.
+  unfold is_weakly_single_crossing. pose proof (solve_ok (wsc_matrix alts ballots) (length ballots)) as Hs.
+  destruct (solve (wsc_matrix alts ballots) (length ballots)) as [perm|] eqn:E.
+  - now apply wsc_check_c1p.
+  - rewrite wsc_reduction. now apply solve_none.
+Qed.
+
+Theorem recog_de alts ballots :
+  Forall (fun b => incl b alts) ballots ->
+  match is_dichotomous_euclidean solve alts ballots with
+  | Some w => de_check alts ballots (fst w) (snd w) = true
+  | None => ~ DE alts ballots
+  end.
+Proof.
+  intros Hwf. unfold is_dichotomous_euclidean. pose proof (recog_ci alts ballots) as Hci.
+  destruct (is_candidate_interval solve alts ballots) as [order|]; simpl.
+  - now apply de_construct_accepted.
+  - intros H. apply Hci. now apply de_implies_ci.
+Qed.
+End RecognisersCorrect.
+
+(* the hypothesis on the solver is satisfiable: the reference enumeration itself *)
+Lemma ref_solve_ok : forall M nc,
+  match find (fun perm => forallb (row_contig perm) M) (perms (seq 0 nc)) with
+  | Some perm => c1p_check M nc perm = true
+  | None => c1p_decide M nc = false
+  end.
+Proof.
+  intros M nc. destruct (find _ _) as [perm|] eqn:E.
+  - apply find_some in E. destruct E as [Hin Hc]. unfold c1p_check. rewrite Hc, andb_true_r.
+    apply perm_of_seq_correct. now apply perms_iff.
+  - unfold c1p_decide. destruct (existsb _ _) eqn:Ex; [|reflexivity].
+    apply existsb_exists in Ex. destruct Ex as (perm & Hin & Hc).
+    now rewrite (find_none _ _ E perm Hin) in Hc.
+Qed.
